@@ -134,12 +134,13 @@ def judge(case: dict[str, Any], shared: dict[Any, Any] | None = None) -> Judgeme
     # ------------------------------------------------------------- reference
     failed_f = np.array([cell_fails(r, -1) for r in range(R)])
     pert_ok = np.array([[not cell_fails(r, k) for k in range(P)] for r in range(R)])
-    failed_g = failed_f | (pert_ok.sum(axis=1) < config.gradient.perturbation_min_success)
-    rms_v = config.realizations.realization_min_success
+    # thresholds as REQUESTED (clamped to the counts), not as the validated configuration reports them
+    failed_g = failed_f | (pert_ok.sum(axis=1) < min(pms, P))
+    rms_v = min(rms, R)
     expect_f_none = int(np.count_nonzero(~failed_f)) < rms_v
     expect_g_none = int(np.count_nonzero(~failed_g)) < rms_v
     fvals = np.array([ens_fn(x, r) for r in range(R)])
-    refc = c01.reference(config, fvals, failed_f, 2, emap, fmap)
+    refc = c01.reference(config, fvals, failed_f, 2, emap, fmap, rms=rms)
     outcome = f"succ_f={int((~failed_f).sum())}/succ_g={int((~failed_g).sum())}/fnone={expect_f_none}/gnone={expect_g_none}"
 
     if refc["abort"]:
